@@ -138,7 +138,7 @@ impl Property for C15 {
     }
     fn budget(&self, tier: Tier) -> (u32, u32) {
         match tier {
-            Tier::Quick => (800, 8),
+            Tier::Quick => (2000, 8),
             Tier::Thorough => (12000, 16),
         }
     }
